@@ -104,6 +104,7 @@ impl Base {
         for e in &sc.edits {
             apply_edit(&mut world.tree, e);
         }
+        world.keep_changes_visible();
         world.tree.check_invariant();
         tree::rematerialise(&old, &world.tree, &world.src);
         let pristine = scratch.join("pristine");
